@@ -892,27 +892,37 @@ def run(ctx):
     missing = [a for a in ALL_ACTIONS if acts[a] == 0]
     if missing:
         raise core.MachineryError("vacuous: specification actions never taken in any scenario: %s" % missing)
-    items = []
+    # Layers of schedules.  Layer 0 is mandatory and already executes EVERY edge of every graph at least once (complete
+    # schedules chosen by Graph.path_cover).  The further layers re-execute the edges over other histories; they are
+    # run in chunks until the tier's wall-clock budget is used up (what was left out is recorded in the evidence).
+    layers = [("path cover: every edge of every graph", [])]
     for name in sorted(_G):
-        g = _G[name]
-        if ctx.quick:
-            # every edge is executed at least once: complete schedules chosen so that together they take every edge
-            # (Graph.path_cover); plus a seeded sample of edges reached over a random path and completed round-robin
-            items += [(name, i, tuple(path), "path", 0) for i, path in enumerate(g.path_cover())]
-            extra = rnd.sample(g.edges, min(len(g.edges), 60))
-            items += [(name, u, p, "rnd", rnd.randrange(1 << 30)) for (u, p) in extra]
-        elif len(desc_by_name[name]["script"]) > 2:
-            # thorough, three actors (tens of thousands of edges): complete schedules that together take every edge
-            items += [(name, i, tuple(path), "path", 0) for i, path in enumerate(g.path_cover())]
-        else:
-            # thorough, two actors: one schedule per edge (shortest path to its source, the edge, round-robin completion);
-            # for the built-in scenarios two further schedules per edge over random paths to its source
-            for (u, p) in g.edges:
-                items.append((name, u, p, "bfs", 0))
-                if name in TWO:
-                    for kx in range(2):
-                        items.append((name, u, p, "rnd", rnd.randrange(1 << 30)))
-    results = core.pmap(_edge_job, items, procs=nproc)
+        layers[0][1].extend((name, i, tuple(path), "path", 0) for i, path in enumerate(_G[name].path_cover()))
+    if ctx.quick:
+        extra = []
+        for name in sorted(_G):
+            g = _G[name]
+            extra += [(name, u, p, "rnd", rnd.randrange(1 << 30)) for (u, p) in rnd.sample(g.edges, min(len(g.edges), 60))]
+        layers.append(("seeded sample of edges: random path to the source, the edge, round-robin completion", extra))
+    else:
+        two = [n for n in sorted(_G) if len(desc_by_name[n]["script"]) == 2]
+        layers.append(("one schedule per edge (shortest path, edge, round-robin completion): built-in two-actor scenarios",
+                       [(n, u, p, "bfs", 0) for n in two if n in TWO for (u, p) in _G[n].edges]))
+        layers.append(("one schedule per edge: random two-actor scenarios",
+                       [(n, u, p, "bfs", 0) for n in two if n not in TWO for (u, p) in _G[n].edges]))
+        layers.append(("two further schedules per edge over random paths: built-in two-actor scenarios",
+                       [(n, u, p, "rnd", rnd.randrange(1 << 30)) for n in two if n in TWO for (u, p) in _G[n].edges for _ in range(2)]))
+    budget = float(os.environ.get("VERIF_C12_BUDGET_S", "100000" if ctx.quick else "1080"))
+    results, ctx.cov["schedule_layers"] = [], []
+    for li, (what, items) in enumerate(layers):
+        done = 0
+        for c0 in range(0, len(items), 3000):
+            if li > 0 and time.time() - ctx.t0 > budget:
+                break
+            chunk = items[c0:c0 + 3000]
+            results += core.pmap(_edge_job, chunk, procs=nproc)
+            done += len(chunk)
+        ctx.cov["schedule_layers"].append({"layer": what, "planned": len(items), "executed": done})
     covered = set()
     for r in results:
         name, u, p = r["item"]
@@ -959,7 +969,12 @@ def run(ctx):
         files = sorted(glob.glob(pref + "_*"), key=lambda f: [int(x) for x in re.findall(r"\d+", os.path.basename(f))[-2:]])
         sims += [(name, f) for f in files]
         ctx.cov["scenarios"][name]["simulated_behaviours"] = len(files)
-    simres = core.pmap(_sim_job, sims, procs=nproc)
+    # interleave the three scenarios so that a budget cut leaves all of them sampled
+    by = collections.defaultdict(list)
+    for x in sims:
+        by[x[0]].append(x)
+    sims = [x for grp in zip(*[by[n] for n in sorted(by)]) for x in grp] if len({len(v) for v in by.values()}) == 1 else sims
+    simres = _budgeted(ctx, _sim_job, sims, nproc, budget + 360, "simulated")
     for r in simres:
         ctx.count(key=("sim", r["item"][0], "".join(x[-1] for x in r["schedule"])), traces=1)
     nviol3, ndiv3 = _collect(ctx, desc_by_name, simres, "simulated schedule")
@@ -975,7 +990,8 @@ def run(ctx):
     for name in sorted(desc_by_name):
         for i in range(10 if ctx.quick else 150):
             free.append((name, desc_by_name[name], rnd.randrange(1 << 30)))
-    freeres = core.pmap(_free_job, free, procs=nproc)
+    rnd.shuffle(free)
+    freeres = _budgeted(ctx, _free_job, free, nproc, budget + 540, "free")
     for r in freeres:
         ctx.count(key=("free", r["item"][0], "".join(x[-1] for x in r["executed"])), traces=1)
     nviolf, _ = _collect(ctx, desc_by_name, freeres, "random schedule")
@@ -1074,6 +1090,18 @@ def shim_audit(ctx):
         i = next((k for k, (a, b) in enumerate(zip(sys_seq, gated)) if a != b), min(len(sys_seq), len(gated)))
         res["first_difference"] = {"index": i, "syscall": sys_seq[i:i + 2], "gated": gated[i:i + 2]}
     return res
+
+
+def _budgeted(ctx, fn, items, nproc, budget, what):
+    """pmap in chunks; the first chunk always runs, later ones while the wall-clock budget lasts"""
+    import time
+    out = []
+    for c0 in range(0, len(items), 1500):
+        if c0 and time.time() - ctx.t0 > budget:
+            break
+        out += core.pmap(fn, items[c0:c0 + 1500], procs=nproc)
+    ctx.cov.setdefault("budget", {})[what] = {"planned": len(items), "executed": len(out)}
+    return out
 
 
 def _free_job(item):
